@@ -132,10 +132,10 @@ def write_new_batch(buffer: IO[bytes], new_batch: NewRecordBatch) -> None:
     base_offset = first_record.offset
     last_offset_delta = i32(last_record.offset - base_offset)
     base_timestamp = i64(_timestamp_to_milliseconds(first_record.timestamp))
+    # Compare instants, not datetime objects: datetimes that share a tzinfo are
+    # compared by wall clock time, which is wrong within a DST fold.
     max_timestamp = i64(
-        _timestamp_to_milliseconds(
-            max(record.timestamp for record in new_batch.records)
-        )
+        max(_timestamp_to_milliseconds(record.timestamp) for record in new_batch.records)
     )
 
     with io.BytesIO() as crc_buffer:
